@@ -115,8 +115,12 @@ Definition rev2bit_byte (i : N) : N :=
   let b3 := N.shiftl (N.land i 3) 6 in
   N.lor (N.lor (N.lor b3 b2) b1) b0.
 
-Definition le_bytes (n : nat) (x : N) : list N :=
-  map (fun i => (x / 2 ^ (8 * N.of_nat i)) mod 256)%N (seq 0 n).
+(* to_le_bytes: n bytes, least significant first *)
+Fixpoint le_bytes (n : nat) (x : N) : list N :=
+  match n with
+  | O => []
+  | S k => (x mod 256)%N :: le_bytes k (x / 256)%N
+  end.
 Fixpoint of_le_bytes (l : list N) : N :=
   match l with [] => 0%N | b :: t => (b + 256 * of_le_bytes t)%N end.
 
